@@ -935,18 +935,8 @@ impl<T: Serialize + for<'de> Deserialize<'de> + Clone + PartialEq + Send + Sync 
 
         for snapshot_path in snapshots.iter().rev() {
             match self.load_snapshot(snapshot_path).await {
-                Ok((header, loaded_state)) => {
-                    // Verify checksum
-                    let data = postcard::to_stdvec(&loaded_state).map_err(|e| {
-                        P2PError::Storage(StorageError::Database(
-                            format!("Failed to serialize for checksum: {e}").into(),
-                        ))
-                    })?;
-
-                    let mut hasher = Sha256::new();
-                    hasher.update(&data);
-                    let checksum: [u8; 32] = hasher.finalize().into();
-
+                Ok((header, loaded_state, checksum)) => {
+                    // Verify checksum (over the payload bytes as stored)
                     if checksum != header.checksum {
                         stats.corruption_events.push(CorruptionEvent {
                             file_path: snapshot_path.clone(),
@@ -1257,7 +1247,14 @@ impl<T: Serialize + for<'de> Deserialize<'de> + Clone + PartialEq + Send + Sync 
     }
 
     /// Load snapshot from file
-    async fn load_snapshot(&self, path: &Path) -> Result<(SnapshotHeader, HashMap<String, T>)> {
+    ///
+    /// Also returns the SHA-256 of the payload bytes as stored: the checksum in the
+    /// header was computed over exactly those bytes, and re-serialising the decoded
+    /// map would not reproduce them (hash-map iteration order).
+    async fn load_snapshot(
+        &self,
+        path: &Path,
+    ) -> Result<(SnapshotHeader, HashMap<String, T>, [u8; 32])> {
         let mut file = File::open(path).map_err(|e| {
             P2PError::Storage(StorageError::Database(
                 format!("Failed to open snapshot: {e}").into(),
@@ -1296,6 +1293,10 @@ impl<T: Serialize + for<'de> Deserialize<'de> + Clone + PartialEq + Send + Sync 
             ))
         })?;
 
+        let mut hasher = Sha256::new();
+        hasher.update(&snapshot_data);
+        let stored_checksum: [u8; 32] = hasher.finalize().into();
+
         // Deserialize state
         let state: HashMap<String, T> = postcard::from_bytes(&snapshot_data).map_err(|e| {
             P2PError::Storage(StorageError::Database(
@@ -1303,7 +1304,7 @@ impl<T: Serialize + for<'de> Deserialize<'de> + Clone + PartialEq + Send + Sync 
             ))
         })?;
 
-        Ok((header, state))
+        Ok((header, state, stored_checksum))
     }
 
     /// Clean up old WAL files
@@ -1507,19 +1508,9 @@ impl<T: Serialize + for<'de> Deserialize<'de> + Clone + PartialEq + Send + Sync 
 
     /// Verify snapshot integrity
     async fn verify_snapshot_integrity(&self, path: &Path) -> Result<()> {
-        let (header, state) = self.load_snapshot(path).await?;
+        let (header, _state, checksum) = self.load_snapshot(path).await?;
 
-        // Verify checksum
-        let data = postcard::to_stdvec(&state).map_err(|e| {
-            P2PError::Storage(StorageError::Database(
-                format!("Failed to serialize for checksum: {e}").into(),
-            ))
-        })?;
-
-        let mut hasher = Sha256::new();
-        hasher.update(&data);
-        let checksum: [u8; 32] = hasher.finalize().into();
-
+        // Verify checksum (over the payload bytes as stored)
         if checksum != header.checksum {
             return Err(P2PError::Storage(
                 crate::error::StorageError::CorruptionDetected(
